@@ -9,5 +9,6 @@ CONSTANTS
   Ops <- MC_OpsPriv
   ReqVers <- MC_V4
   Lazies <- MC_Eager
+  Dev = {}
   Known <- MC_KnownDesign
 CHECK_DEADLOCK FALSE
